@@ -75,6 +75,23 @@ def run(ctx):
             for rep in range(2 if quick else 6):
                 r = int(rng.integers(1, 5))
                 if d == 1:
+                    # a single core is a TT-tensor too (d = 1): default arguments, explicit accuracies, every q
+                    G1 = rng.integers(-2, 3, size=(1, n, 1)).astype(float)
+                    ref1 = G1[0, :, 0]
+                    for kw1 in ({}, dict(e=1e-12), dict(e=1e-14, r=100)):
+                        ctx.case(key=('single-core', q, rep, repr(kw1)), nontrivial=q >= 2)
+                        try:
+                            Z1 = teneva.tt_to_qtt([G1], **kw1)
+                        except Exception as ex:
+                            ctx.violation('tt_to_qtt:raises', 'tt_to_qtt of a single-core tensor (q=%d, %s) raised %s: %s' % (q, kw1, type(ex).__name__, ex))
+                            continue
+                        ok1 = F.is_wellformed(Z1, [2] * q)
+                        if ok1:
+                            v1 = (F.dense(Z1) if q > 1 else Z1[0][0, :, 0])[tuple(keepB.T)] if q > 1 else Z1[0][0, :, 0][keepB[:, 0]]
+                            ok1 = np.abs(v1 - ref1[keepI[:, 0]]).max() <= 1e-9 * (1 + np.abs(ref1).max())
+                            W1 = teneva.qtt_to_tt(Z1, q)
+                            ok1 = ok1 and len(W1) == 1 and np.abs(W1[0][0, :, 0] - ref1).max() <= 1e-9 * (1 + np.abs(ref1).max())
+                        ctx.check(ok1, 'tt_to_qtt:value', 'single-core tensor (q=%d, %s): QTT entries at the bits of i differ from the entries at i, or the round trip fails' % (q, kw1))
                     continue
                 rr = [1] + [int(x) for x in rng.integers(1, r + 1, size=d - 1)] + [1]
                 Y = [rng.integers(-2, 3, size=(rr[k], n, rr[k + 1])).astype(float) for k in range(d)]
